@@ -247,3 +247,10 @@ def x3(cx: Cx, ob: Ob) -> None:
     from ..rules import cached_derivations
 
     cached_derivations(cx, ob)
+
+
+@obligation("C09-X5", "pairing (shared with C05-D4): every normally returning path of add_record merges or appends and then unconditionally re-indexes the changed record, so the lookup tables never lag behind the records", floor=2)
+def x5(cx: Cx, ob: Ob) -> None:
+    from .c05 import check_add_record_pairing
+
+    check_add_record_pairing(cx, ob)
